@@ -535,6 +535,10 @@ package decimal
 //@   ensures p10(k+1) == 10*p10(k) && p10(k) >= 1
 //@   axiom
 
+//@ lemma mod_p10_down(x, a, b)
+//@   requires 0 <= b && b <= a && a <= 18 && x >= 0 && x % p10(a) == 0
+//@   ensures x % p10(b) == 0
+
 //@ lemma p10_P(a)
 //@   requires a >= 0
 //@   ensures p10(19*a) == P(a)
